@@ -15,6 +15,7 @@ REPLAY_BOUNDS = {
     'cnf': 'Cnf::eval / is_sat_partial on 7 clause lists (incl. empty list, empty clause, duplicate and complementary literals) x all total and one-hole partial assignments of 3 variables; 300 seeded random PartialModel set/unset sequences',
     'order': 'VarOrder::new on every permutation of 0..4 variables, each extended 0-2 times with new_last',
     'compile': 'compile_cnf / collapse_clauses on 8 fixed clause lists x 6 orders and 600 seeded random CNFs; compile_logical_expr / compile_plan on 600 seeded random expressions of depth <= 4 over 3 variables',
+    'dtree': 'DTree::from_cnf + VTree::from_dtree on 500 seeded random CNFs over 2-5 variables (every variable occurs) with random elimination orders: leaves = clauses, vars = union of children, cutset formula, vtree leaves = CNF variables',
     'poly': 'Polynomial<FiniteField<U32_TINY>>: 403 pairs of polynomials with 0..33 coefficients (seeded random), + and * against the schoolbook definition',
 }
 
@@ -123,15 +124,18 @@ prop('C15',
      ])
 
 prop('C14',
-     units=['order'],
-     assumptions=[A_VERUS, A_EXTRACT],
-     replay='order',
+     units=['order', 'dtree'],
+     assumptions=[A_VERUS, A_EXTRACT,
+                  'A-bitset / A-varset: BitSet insert/contains behave as a set of usize; the VarSet wrappers new/union/minus/intersect_varset (one-line functions over BitSet iterators) compute the set operation they name',
+                  'A-clone: the derived Clone of DTree is a structural copy', A_TERM],
+     replay={'order': 'order', 'dtree': 'dtree', '*': 'order'},
      explanation='first sentence of the property, for the orders VarOrder itself builds: VarOrder::new(order) for ANY permutation `order` yields mutually inverse position/label maps (wf) with '
-                 'get(order[i]) == i; new_last (run-time extension) preserves wf, keeps every old position and appends the new label; get / var_at_level / lt / lte / first / first_essential are proved against the maps',
+                 'get(order[i]) == i; new_last (run-time extension) preserves wf, keeps every old position and appends the new label; get / var_at_level / lt / lte / first / first_essential / sort / above / below are proved against the maps.  '
+                 'dtree helpers (unit dtree): init_vars establishes vars = vars(l) U vars(r) at every node and the clause variables at every leaf; gen_cutset establishes cutset = (vars(l) /\\ vars(r)) minus the ancestors\' cutsets at every node (leaf: remaining variables) and changes nothing else; balanced keeps exactly the leaves of its input trees, in order',
      not_covered=[
          'VarOrder::linear_order ((0..n).map(..).collect(): iterator chain; it only calls VarOrder::new, which is proved)',
          'min-fill (petgraph) and FORCE (f64, sort_by, partial_cmp) order heuristics',
-         'dtree construction and cutsets (VarSet unions over BitSet iterators, partition)', 'VTree::from_dtree, VTreeManager (in-order indices, lca via segment tree, prime test, variable count)',
+         'DTree::from_cnf itself (iterator map/collect/partition around the proved helpers), cutwidth', 'VTree::from_dtree (cutset.iter().collect()), VTreeManager (in-order indices, lca via segment tree, prime test, variable count)',
      ])
 
 prop('C05',
